@@ -683,6 +683,10 @@ func JudgeCluster(sc *ClusterScenario, tr *Trace) ([]pbt.Violation, ClusterStats
 					if wait := time.Duration(sc.Positions[a.Inst]) * pt; wait > 0 && !a.Tick.After(prev.Done) && prev.Done.After(a.T.Add(-wait-time.Second)) {
 						stale = true
 					}
+					// ... or it decides against a log entry that is newer than the view it froze at its tick
+					if sc.Positions[a.Inst] > 0 && a.Entry != nil && a.Entry.Found && a.Entry.Timestamp.After(a.Tick) {
+						stale = true
+					}
 					for _, w := range tr.LogWrites {
 						wait := time.Duration(sc.Positions[w.Inst]) * pt
 						if w.GroupKey == a.GroupKey && w.Receiver == a.Receiver && w.Idx == a.Idx && wait > 0 &&
